@@ -1,9 +1,62 @@
-(** Property C04 — theorems only; proofs live in Proofs/. *)
-From Coq Require Import String List.
-From Zog Require Import Model.Val Model.Engine Spec.Sem Proofs.Refine.
+(** Property C04 — Required, Optional and Default decide what an absent value means. *)
+From Coq Require Import String List ZArith Bool.
+From Zog Require Import Model.Val Model.Engine Spec.Sem Proofs.Refine Proofs.AbsentP.
+Import ListNotations.
 
-(** The executable engine (flags, shared child context, mutable path stack, one issue log) computes
-    exactly the context-free semantics, for every schema, mode, input and destination. *)
+(** In Parse a value is absent iff it is nil (a missing key reads as nil) or a string consisting
+    only of Go's white-space code points (in UTF-8); 0, false and the zero time are present. *)
+Theorem C04_parse_absent_iff : forall v, parse_zero v = true <-> v = VNil \/ exists s, v = VStr s /\ all_spaces s.
+Proof. exact parse_absent_iff. Qed.
+Print Assumptions C04_parse_absent_iff.
+Theorem C04_falsy_values_are_present : parse_zero (VInt 0) = false /\ parse_zero (VBool false) = false /\ parse_zero (VTime go_zero_time) = false
+                                       /\ parse_zero (VF64 (Floats.SpecFloat.S754_zero false)) = false /\ parse_zero (VList []) = false.
+Proof. exact falsy_values_are_present. Qed.
+Print Assumptions C04_falsy_values_are_present.
+Theorem C04_validate_absent_examples : go_zero (DSlice []) = true /\ go_zero (DPtr None) = true /\ go_zero (DStr "") = true /\ go_zero (DInt 0) = true
+                                       /\ go_zero (DBool false) = true /\ go_zero (DTime go_zero_time) = true /\ go_zero (DStr " ") = false.
+Proof. exact validate_absent_examples. Qed.
+Print Assumptions C04_validate_absent_examples.
+
+(** the decision table, primitive nodes (both modes; "absent" as the mode defines it) *)
+Theorem C04_absent_default : forall m p dat d e0, p_pts p = [] -> forall dv,
+  match m with Parse => parse_zero dat | Validate => go_zero d end = true -> p_def p = Some dv ->
+  sem_prim m p dat d e0 = ((fst (sem_prim_tests (dtype_of (p_kind p)) (p_tests p) (p_catch p) dv) ++ [])%list,
+                           snd (sem_prim_tests (dtype_of (p_kind p)) (p_tests p) (p_catch p) dv)).
+Proof. exact absent_default. Qed.
+Print Assumptions C04_absent_default.
+Theorem C04_absent_required : forall m p dat d e0, p_pts p = [] -> forall rt,
+  match m with Parse => parse_zero dat | Validate => go_zero d end = true -> p_def p = None -> p_req p = Some rt -> p_catch p = None ->
+  sem_prim m p dat d e0 = ([RI [] (fun q => mk_test_issue q (dtype_of (p_kind p)) rt)], d).
+Proof. exact absent_required. Qed.
+Print Assumptions C04_absent_required.
+Theorem C04_absent_optional : forall m p dat d e0, p_pts p = [] ->
+  match m with Parse => parse_zero dat | Validate => go_zero d end = true -> p_def p = None -> p_req p = None ->
+  sem_prim m p dat d e0 = ([], d).
+Proof. exact absent_optional. Qed.
+Print Assumptions C04_absent_optional.
+
+(** slices and pointers *)
+Theorem C04_slice_absent_required : forall m e c dat d e0 rt, sl_pts c = [] -> sl_def c = None -> sl_req c = Some rt ->
+  match m with Parse => parse_zero (data_val dat) = true | Validate => dslice_items d = [] end ->
+  sem m (SSlice e c) dat d e0 = ([RI [] (fun q => mk_test_issue q "slice" rt)], d).
+Proof. exact slice_absent_required. Qed.
+Print Assumptions C04_slice_absent_required.
+Theorem C04_slice_absent_optional : forall m e c dat d e0, sl_pts c = [] -> sl_def c = None -> sl_req c = None ->
+  match m with Parse => parse_zero (data_val dat) = true | Validate => dslice_items d = [] end ->
+  sem m (SSlice e c) dat d e0 = ([], d).
+Proof. exact slice_absent_optional. Qed.
+Print Assumptions C04_slice_absent_optional.
+Theorem C04_ptr_absent_notnil : forall e rt pz v d e0, parse_zero v = true ->
+  sem Parse (SPtr e (Some rt) pz) (DVal v) d e0 = ([RI [] (fun q => mk_test_issue q (sch_dtype e) rt)], d)
+  /\ sem Validate (SPtr e (Some rt) pz) (DVal v) (DPtr None) e0 = ([RI [] (fun q => mk_test_issue q (sch_dtype e) rt)], DPtr None).
+Proof. exact ptr_absent_notnil. Qed.
+Print Assumptions C04_ptr_absent_notnil.
+Theorem C04_ptr_absent_optional : forall e pz v d e0, parse_zero v = true ->
+  sem Parse (SPtr e None pz) (DVal v) d e0 = ([], d) /\ sem Validate (SPtr e None pz) (DVal v) (DPtr None) e0 = ([], DPtr None).
+Proof. exact ptr_absent_optional. Qed.
+Print Assumptions C04_ptr_absent_optional.
+
+(** at every nesting depth: the engine computes this semantics node by node *)
 Theorem C04_engine_computes_semantics : forall m s dat d, run m s dat d = sem_run m s dat d.
 Proof. exact run_is_sem_run. Qed.
 Print Assumptions C04_engine_computes_semantics.
